@@ -97,3 +97,26 @@ package blocklist
 //@   assert at return: calls("(*middleware/blocklist.BlockList).persist$2") == 0 && calls("github.com/semihalev/zlog/v2.Warn") == 0 ==> b.lastPersisted >= s.version
 //@   assert at return: calls("os.Rename") <= 1 && calls("os.CreateTemp") <= 1
 //@   assert at return#1: calls("os.CreateTemp") == 0 && calls("os.Rename") == 0
+//@
+//@ # ---- C18: the mutating API persists exactly when memory changed: a batch that changed nothing writes nothing; one
+//@ # that changed something takes ONE snapshot under the lock and persists that snapshot after releasing it
+//@ func (*BlockList).SetBatch
+//@   abstract
+//@   nosafety all pre
+//@   assert at call (*middleware/blocklist.BlockList).snapshotLocked#1: added != 0 && calls("(*sync.RWMutex).Lock") == 1 && calls("(*sync.RWMutex).Unlock") == 0
+//@   assert at call (*middleware/blocklist.BlockList).persist#1: arg1 == lastret("(*middleware/blocklist.BlockList).snapshotLocked") && calls("(*sync.RWMutex).Unlock") == 1
+//@   assert at return#2: result == 0 && calls("(*middleware/blocklist.BlockList).persist") == 0
+//@   assert at return#3: calls("(*middleware/blocklist.BlockList).persist") == 1 && calls("(*sync.RWMutex).Unlock") == 1
+//@ func (*BlockList).RemoveBatch
+//@   abstract
+//@   nosafety all pre
+//@   assert at call (*middleware/blocklist.BlockList).snapshotLocked#1: removed != 0 && calls("(*sync.RWMutex).Lock") == 1 && calls("(*sync.RWMutex).Unlock") == 0
+//@   assert at call (*middleware/blocklist.BlockList).persist#1: arg1 == lastret("(*middleware/blocklist.BlockList).snapshotLocked") && calls("(*sync.RWMutex).Unlock") == 1
+//@   assert at return#2: result == 0 && calls("(*middleware/blocklist.BlockList).persist") == 0
+//@
+//@ # loading a hosts file: every name field is canonicalised before it is tested and added; comment fields end a line
+//@ func (*BlockList).parseHostFile
+//@   abstract
+//@   nosafety all pre
+//@   assert at call (*middleware/blocklist.BlockList).set#1: sameslice(arg1, canon(n)) && !lastret("(*middleware/blocklist.BlockList).Exists") && !lastret("strings.HasPrefix")
+//@   assert at call (*middleware/blocklist.BlockList).Exists#1: sameslice(arg1, canon(n))
